@@ -136,7 +136,7 @@ def run(ctx):
             ctx.ob(ok, 'tokio: one reconnect timer sleep(wait), created outside the wait loop (%s)' % [(c.nfn, c.ln) for c in sl], 'wait-once|tokio', loc=v.loc())
         else:
             dl = [(b, show(e)) for b, e in var_inits(v, 'timeout_timepoint')]
-            ok = len(dl) == 1 and re.match(r'^Add::add\(Instant::now\(\), wait\)$', dl[0][1]) is not None and dl[0][0] not in v.reach(list(succ_[dl[0][0]]))
+            ok = len(dl) == 1 and (re.match(r'^Add::add\(Instant::now\(\), wait\)$', dl[0][1]) is not None or re.search(r'Instant::checked_add\(Instant::now\(\), wait\)|add_duration_saturating\(Instant::now\(\), wait\)', dl[0][1]) is not None) and dl[0][0] not in v.reach(list(succ_[dl[0][0]]))
             ctx.ob(ok, 'threaded: the deadline now + wait is computed once, outside the wait loop (%s)' % [x for b, x in dl], 'wait-once|threaded', loc=v.loc())
     if ctx.config == 'all':
         ctx.floor(nd, 2, 'pending-reconnect driver loops')
